@@ -63,13 +63,13 @@ func (t *timeoutFuture) Error() error {
 		return t.err
 	}
 
-	errC := make(chan error)
+	// The channel is buffered so that the result is not lost if the wrapped
+	// future completes before this goroutine starts waiting on the channel
+	// below (in which case the call would otherwise wait for the deadline and
+	// report a timeout for an operation that has completed).
+	errC := make(chan error, 1)
 	go func() {
-		err := t.wrapped.Error()
-		select {
-		case errC <- err:
-		default:
-		}
+		errC <- t.wrapped.Error()
 	}()
 
 	var err error
